@@ -24,6 +24,8 @@ import (
 	"github.com/q191201771/lal/pkg/base"
 	"github.com/q191201771/lal/pkg/hls"
 	"github.com/q191201771/lal/pkg/logic"
+	"github.com/q191201771/naza/pkg/mock"
+	"github.com/q191201771/naza/pkg/nazalog"
 
 	"verif/drv/pbt"
 	"verif/gen"
@@ -240,6 +242,39 @@ type worker struct {
 	hlsS map[string]string // stream name -> hls session id
 }
 
+// marshalSnapshot does with a stat result what lal's HTTP API (feedback) and notify path do with it: json.Marshal in
+// the caller's goroutine, outside every lal lock.  (The function name is known to the race report parser.)
+//
+//go:noinline
+func marshalSnapshot(v interface{}) {
+	if b, err := json.Marshal(v); err == nil {
+		count("stat-bytes-marshalled", len(b))
+	}
+}
+
+// holdThenMarshal: in a share of the calls the snapshot is kept for a moment (other stat calls and ticks run meanwhile)
+// before it is serialised, as a slow HTTP client or a queued notification does.
+func holdThenMarshal(arg int, v interface{}) {
+	switch arg % 4 {
+	case 1:
+		runtime.Gosched()
+	case 2:
+		time.Sleep(300 * time.Microsecond)
+	case 3:
+		time.Sleep(3 * time.Millisecond)
+	}
+	marshalSnapshot(v)
+}
+
+// advanceClock: with Case.FpsClock the harness owns nazalog.Clock (lal reads it only for the per-second video frame
+// statistics of a group): one second per published message, so that the 32-second ring of a group fills within
+// a workload instead of after half a minute of stream.
+func (w *world) advanceClock() {
+	if w.c.FpsClock {
+		nazalog.Clock.Add(time.Second)
+	}
+}
+
 func pause(p int) {
 	switch {
 	case p == 1:
@@ -299,6 +334,7 @@ func (k *worker) do(oi int, op Op) {
 		se.send = func(n int, sl *slot) {
 			sl.guard("rtmp publisher sends", func() {
 				for i := 0; i < n; i++ {
+					w.advanceClock()
 					if p.SendItem(mediaItem(se.sent, seed, cd), cd, 0) != nil {
 						return
 					}
@@ -308,6 +344,9 @@ func (k *worker) do(oi int, op Op) {
 			})
 		}
 		se.leave = func(sl *slot) { closeAndWait(sl, "rtmp publisher", p.Conn) }
+		if w.c.FpsClock && op.Arg%2 == 0 {
+			se.send(70, sl) // more than 32 video frames, one (harness) second apart: the group's frame statistics ring is full
+		}
 		se.send(3+op.Arg, sl)
 		k.open = append(k.open, se)
 	case "pub-rtsp":
@@ -368,6 +407,7 @@ func (k *worker) do(oi int, op Op) {
 		se := &session{kind: "pub-cust", name: name}
 		se.send = func(n int, sl *slot) {
 			for i := 0; i < n; i++ {
+				w.advanceClock()
 				it := mediaItem(se.sent, seed, cd)
 				se.sent++
 				pl := it.Payload(cd)
@@ -439,6 +479,7 @@ func (k *worker) do(oi int, op Op) {
 		var sg *base.StatGroup
 		w.call(sl, "StatGroup", func() { sg = s.SM.StatGroup(name) })
 		var ids []string
+		marshalSnapshot(sg)
 		if sg != nil {
 			if sg.StatPub.SessionId != "" {
 				ids = append(ids, sg.StatPub.SessionId)
@@ -458,11 +499,17 @@ func (k *worker) do(oi int, op Op) {
 			count("kick-hit", 1)
 		}
 	case "stat":
-		w.call(sl, "StatGroup", func() { _ = s.SM.StatGroup(name) })
+		var sg *base.StatGroup
+		w.call(sl, "StatGroup", func() { sg = s.SM.StatGroup(name) })
+		holdThenMarshal(op.Arg, sg)
 	case "stat-all":
-		w.call(sl, "StatAllGroup", func() { _ = s.SM.StatAllGroup() })
+		var sgs []base.StatGroup
+		w.call(sl, "StatAllGroup", func() { sgs = s.SM.StatAllGroup() })
+		holdThenMarshal(op.Arg, sgs)
 	case "lal-info":
-		w.call(sl, "StatLalInfo", func() { _ = s.SM.StatLalInfo() })
+		var li base.LalInfo
+		w.call(sl, "StatLalInfo", func() { li = s.SM.StatLalInfo() })
+		holdThenMarshal(op.Arg, li)
 	case "pull-start":
 		var resp base.ApiCtrlStartRelayPullResp
 		url := "rtmp://" + w.origin.Addr + "/" + app + "/" + name
@@ -818,7 +865,20 @@ func (w *world) runRep() {
 		for i := 0; !w.stop.Load(); i++ {
 			time.Sleep(time.Duration(w.c.TickUs) * time.Microsecond)
 			if i%3 == 2 {
-				w.call(tsl, "StatAllGroup (ticker)", func() { _ = s.SM.StatAllGroup() })
+				// what RunLoop does for on_update and its debug log: snapshot of all groups, serialised outside the locks
+				var sgs []base.StatGroup
+				w.call(tsl, "StatAllGroup (ticker)", func() { sgs = s.SM.StatAllGroup() })
+				marshalSnapshot(sgs)
+				if i%6 == 5 {
+					for ni := 0; ni < w.c.Names; ni++ {
+						var g *logic.Group
+						nm := fmt.Sprintf("c20s%d", ni)
+						w.call(tsl, "GetGroup (ticker)", func() { g = s.SM.GetGroup("", nm) })
+						if g != nil {
+							w.call(tsl, "Group.StringifyDebugStats (ticker)", func() { _ = g.StringifyDebugStats(8) })
+						}
+					}
+				}
 				continue
 			}
 			n := w.tickN.Add(1)
@@ -967,6 +1027,11 @@ func childMain(casePath string) {
 	}
 	if c.Names < 1 || len(c.Workers) == 0 || c.TickUs < 1 {
 		harnessFail("malformed case")
+	}
+	if c.FpsClock {
+		fc := mock.NewFakeClock()
+		fc.Set(time.Unix(1700000000, 0))
+		nazalog.Clock = fc
 	}
 	if !raceDetectorOn {
 		harnessFail("the child runs WITHOUT the race detector (test binary not built with -race): the main oracle of C20 is off")
